@@ -1,4 +1,5 @@
 import DoviModel.Model.Generate
+import DoviModel.Proofs.EditGenProof
 /-! # C10 — generator output matches its config -/
 namespace Dovi.C10
 open Dovi Dovi.Gen
@@ -74,4 +75,363 @@ theorem l1_clamp_range (cmv40 : Bool) (b : Block) (h : b.level = 1) :
 theorem clamp_other (cmv40 : Bool) (b : Block) (h : b.level ≠ 1) : clampL1 cmv40 b = b := by
   simp [clampL1, h]
 
+
+/-! # More and stronger theorems (helper lemmas and the definitions used below: `Proofs/GenPart.lean`)
+
+Vocabulary (all defined in `Dovi.EditGenProof.Gen`):
+* `keyed lv` — `lv` is 2, 8 or 10; `sameKey a b` — same level and, for keyed levels, same first value
+  (L2 `target_max_pq`, L8/L10 target display index). An equivalence relation on blocks.
+* `Uniq d` — in every present container of `d` no two blocks have the same key.
+* `holds d lv` — the container that stores level `lv` exists in `d` (CM v2.9: 1 2 4 5 6 255, CM v4.0: 3 8 9 10 11 254).
+* `shell d` — `d` with the contents of its present containers blanked (everything except the blocks).
+* `defaultBlocks c` — `c.defaults` without L5/L6; `statics c` — L5 (from `level5`), L6 (if given), L9, L11;
+  `l254` — the L254 block `[0, 2]`.
+* `editBlocks s i` — the blocks of the FIRST frame edit of `s` with offset `i` (`[]` if none);
+  `cutFlag c i` — `1` if `i = 0` or long-play, else `0`.
+* `accepts c b` — `b.level ≠ 0` and `b.level ∈ {8, 10} → c.cmv40`.
+* `bs.reverse.find? (sameKey x) = some x` — `x` is the LAST block of `bs` with `x`'s key;
+  `bs.all (fun b => !sameKey b x)` — no block of `bs` has `x`'s key.
+-/
+open Dovi.EditGenProof.Gen
+
+/-! ## (a) scene cuts -/
+
+/-- the scene-refresh flag of an RPU (none when it has no DM data) -/
+def flagOf (r : Rpu) : Option Nat := r.vdr_dm_data.map (·.scene_refresh_flag)
+
+/-- facts about the base DM data that do not concern blocks -/
+theorem base_fields (c : Config) (dm0 : DmData) (h : dmFromConfig c = .ok dm0) :
+    dm0.scene_refresh_flag = 0 ∧ dm0.compressed = false ∧ dm0.affected_dm_metadata_id = 0 ∧
+    dm0.current_dm_metadata_id = 0 ∧ dm0.cmv29.isSome = true ∧ dm0.cmv40.isSome = c.cmv40 := by
+  obtain ⟨_, _, hs, _⟩ := dmFromConfig_spec c dm0 h
+  refine ⟨congrArg DmData.scene_refresh_flag hs, congrArg DmData.compressed hs,
+    congrArg DmData.affected_dm_metadata_id hs, congrArg DmData.current_dm_metadata_id hs, ?_, ?_⟩
+  · have := congrArg (fun d => d.cmv29.isSome) hs
+    simpa [shell, dmInit] using this
+  · have := congrArg (fun d => d.cmv40.isSome) hs
+    cases hc : c.cmv40 <;> simpa [shell, dmInit, hc] using this
+
+/-- **structure of the output**: the list is, shot by shot and offset by offset, the frames computed by
+`frameRpu` from one base RPU — every one of them succeeded -/
+theorem gen_frames (c : Config) (l : List Rpu) (h : generateList c = .ok l) :
+    ∃ base dm0, baseRpu c = .ok base ∧ dmFromConfig c = .ok dm0 ∧ base = baseOf c dm0 ∧
+      l.map Res.ok = c.shots.flatMap fun s => (List.range s.duration).map (frameRpu c base s) := by
+  obtain ⟨base, h1, _, h3⟩ := (generateList_ok c l).1 h
+  obtain ⟨dm0, h4, h5⟩ := (baseRpu_ok c base).1 h1
+  exact ⟨base, dm0, h1, h4, h5, allFrames_structure c base c.shots l h3⟩
+
+/-- **C10 (a)**: the scene-refresh flag is 1 exactly on the first frame of every shot (on every frame in
+long-play mode) and 0 on all other frames; shots of duration 0 contribute nothing -/
+theorem gen_scene_cuts (c : Config) (l : List Rpu) (h : generateList c = .ok l) :
+    l.map flagOf = c.shots.flatMap fun s => (List.range s.duration).map fun i =>
+      some (if i = 0 ∨ c.longPlay = true then 1 else 0) := by
+  obtain ⟨base, h1, _, h3⟩ := (generateList_ok c l).1 h
+  obtain ⟨dm0, h4, h5⟩ := (baseRpu_ok c base).1 h1
+  obtain ⟨hu, _⟩ := dmFromConfig_spec c dm0 h4
+  have hf := (base_fields c dm0 h4).1
+  have hb : base.vdr_dm_data = some dm0 := by rw [h5]; exact baseOf_dm c dm0
+  refine allFrames_map flagOf _ c base c.shots l h3 ?_
+  intro s _ j r _ hr
+  obtain ⟨d, rfl, _, hs, _⟩ := frameRpu_spec c base s j r dm0 hb hf hu hr
+  have := congrArg DmData.scene_refresh_flag hs
+  simp only [flagOf, Option.map_some]
+  exact congrArg some this
+
+/-! ## (b) precedence -/
+
+/-- index of the first frame of shot `k` in the output: the sum of the durations of the shots before it -/
+def shotStart (c : Config) (k : Nat) : Nat := ((c.shots.take k).map (·.duration)).sum
+
+/-- the frame of shot `k` at offset `i` sits at index `shotStart c k + i` and is `frameRpu` of that shot and offset -/
+theorem gen_frame_at (c : Config) (l : List Rpu) (base : Rpu)
+    (h : l.map Res.ok = c.shots.flatMap fun s => (List.range s.duration).map (frameRpu c base s))
+    (k : Nat) (hk : k < c.shots.length) (i : Nat) (hi : i < c.shots[k].duration) :
+    ∃ r, l[shotStart c k + i]? = some r ∧ frameRpu c base c.shots[k] i = .ok r := by
+  have := getElem?_flatMap_range (fun s : Shot => s.duration) (frameRpu c base) c.shots k i hk hi
+  rw [← h, List.getElem?_map] at this
+  unfold shotStart
+  cases hl : l[((c.shots.take k).map (·.duration)).sum + i]? with
+  | none => rw [hl] at this; cases this
+  | some r =>
+    rw [hl] at this
+    simp only [Option.map_some, Option.some.injEq] at this
+    exact ⟨r, rfl, this.symm⟩
+
+/-- every output frame is the frame of some shot at some offset below its duration -/
+theorem gen_frame_of_mem (c : Config) (l : List Rpu) (base : Rpu)
+    (h : l.map Res.ok = c.shots.flatMap fun s => (List.range s.duration).map (frameRpu c base s))
+    (r : Rpu) (hr : r ∈ l) : ∃ s ∈ c.shots, ∃ i, i < s.duration ∧ frameRpu c base s i = .ok r := by
+  have : Res.ok r ∈ l.map Res.ok := List.mem_map_of_mem hr
+  rw [h, List.mem_flatMap] at this
+  obtain ⟨s, hs, hm⟩ := this
+  rw [List.mem_map] at hm
+  obtain ⟨i, hi, he⟩ := hm
+  exact ⟨s, hs, i, List.mem_range.1 hi, he⟩
+
+/-- **one override** (`replace_metadata_block`, on DM data without duplicate keys): afterwards the blocks are
+`b` itself (provided its container exists) and the old blocks whose key differs from `b`'s; no duplicate
+keys arise -/
+theorem replaceBlock_override (d d' : DmData) (b : Block) (hu : Uniq d) (h : d.replaceBlock b = .ok d') :
+    Uniq d' ∧ (∀ lv, holds d' lv ↔ holds d lv) ∧
+    ∀ x : Block, x ∈ d'.levelBlocks x.level ↔
+      (holds d x.level ∧ x = b) ∨ (sameKey b x = false ∧ x ∈ d.levelBlocks x.level) :=
+  ⟨replaceBlock_uniq d d' b hu h, replaceBlock_holds d d' b hu h, replaceBlock_mem d d' b hu h⟩
+
+/-- **a list of overrides** (`replace_metadata_blocks`): for every key the LAST block of `bs` with that key
+wins; keys not mentioned in `bs` keep their old block -/
+theorem replaceBlocks_override (d d' : DmData) (bs : List Block) (hu : Uniq d)
+    (h : d.replaceBlocks bs = .ok d') :
+    Uniq d' ∧ (∀ lv, holds d' lv ↔ holds d lv) ∧ shell d' = shell d ∧
+    ∀ x : Block, x ∈ d'.levelBlocks x.level ↔
+      (holds d x.level ∧ bs.reverse.find? (sameKey x) = some x) ∨
+      (bs.all (fun b => !sameKey b x) = true ∧ x ∈ d.levelBlocks x.level) := by
+  obtain ⟨a, b, c, e⟩ := replaceBlocks_spec bs d d' hu h
+  exact ⟨a, c, b, e⟩
+
+/-- under `Uniq` a key determines the block: two stored blocks with the same (level, target) are equal -/
+theorem block_unique (d : DmData) (hu : Uniq d) (x y : Block)
+    (hx : x ∈ d.levelBlocks x.level) (hy : y ∈ d.levelBlocks y.level) (h : sameKey x y = true) : x = y :=
+  levelBlocks_unique hu hx hy h
+
+/-- under `Uniq` an un-keyed level (every level except 2, 8, 10) holds at most one block, and `get_block`
+returns it -/
+theorem unkeyed_single (d : DmData) (hu : Uniq d) (lv : Nat) (hk : keyed lv = false) :
+    (d.levelBlocks lv).length ≤ 1 ∧ ∀ x, d.getBlock lv = some x ↔ x ∈ d.levelBlocks lv :=
+  ⟨levelBlocks_length_le_one hu lv hk, getBlock_iff hu lv hk⟩
+
+/-- **the base DM data** (`from_generate_config`): per key, the last default block (L5/L6 defaults are
+ignored) wins, else the last static block (L5 from `level5`, L6 if given, L9 zeros, L11 `[1,0,1,0,0]`),
+else — for CM v4.0 — the initial L254 `[0,2]`; a block is stored only if its container exists
+(CM v2.9 levels always, CM v4.0 levels iff `cmv40`); source min/max PQ are the config's values when given -/
+theorem gen_base_blocks (c : Config) (dm0 : DmData) (h : dmFromConfig c = .ok dm0) :
+    Uniq dm0 ∧
+    (∀ lv, holds dm0 lv ↔ (lv ∈ cmv29Levels ∨ (c.cmv40 = true ∧ lv ∈ cmv40Levels))) ∧
+    dm0.main.length = 32 ∧
+    (∀ j, j ≠ 29 → j ≠ 30 → dm0.main[j]? = (dmMainOf c.profile)[j]?) ∧
+    (∀ v, c.sourceMinPq = some v → dm0.main[29]? = some (v : Int)) ∧
+    (∀ v, c.sourceMaxPq = some v → dm0.main[30]? = some (v : Int)) ∧
+    ∀ x : Block, x ∈ dm0.levelBlocks x.level ↔
+      (holds dm0 x.level ∧ (defaultBlocks c).reverse.find? (sameKey x) = some x) ∨
+      ((defaultBlocks c).all (fun b => !sameKey b x) = true ∧ holds dm0 x.level ∧
+        (statics c).reverse.find? (sameKey x) = some x) ∨
+      ((defaultBlocks c).all (fun b => !sameKey b x) = true ∧ (statics c).all (fun b => !sameKey b x) = true ∧
+        c.cmv40 = true ∧ x = l254) := by
+  obtain ⟨a1, a2, _, a4, a5, a6, a7, a8⟩ := dmFromConfig_spec c dm0 h
+  exact ⟨a1, a2, a4, a5, a6, a7, a8⟩
+
+/-- **C10 (b), per frame**: the frame of shot `k` at offset `i` is the base RPU with new DM data `d` that
+differs from the base DM data only in the scene-refresh flag and the blocks; per key the block of `d` is the
+one of the frame edit at offset `i` (last block with that key of the FIRST edit with that offset), else the
+last one of the shot's blocks, else the base DM's block -/
+theorem gen_precedence (c : Config) (l : List Rpu) (h : generateList c = .ok l) :
+    ∃ base dm0, baseRpu c = .ok base ∧ dmFromConfig c = .ok dm0 ∧ base = baseOf c dm0 ∧ Uniq dm0 ∧
+      ∀ (k : Nat) (hk : k < c.shots.length) (i : Nat), i < c.shots[k].duration →
+        ∃ r d, l[shotStart c k + i]? = some r ∧ r = { base with vdr_dm_data := some d } ∧ Uniq d ∧
+          shell d = { shell dm0 with scene_refresh_flag := cutFlag c i } ∧
+          ∀ x : Block, x ∈ d.levelBlocks x.level ↔
+            (holds dm0 x.level ∧ (editBlocks c.shots[k] i).reverse.find? (sameKey x) = some x) ∨
+            ((editBlocks c.shots[k] i).all (fun b => !sameKey b x) = true ∧ holds dm0 x.level ∧
+              c.shots[k].blocks.reverse.find? (sameKey x) = some x) ∨
+            ((editBlocks c.shots[k] i).all (fun b => !sameKey b x) = true ∧
+              c.shots[k].blocks.all (fun b => !sameKey b x) = true ∧ x ∈ dm0.levelBlocks x.level) := by
+  obtain ⟨base, dm0, h1, h2, h3, h4⟩ := gen_frames c l h
+  obtain ⟨hu, _⟩ := dmFromConfig_spec c dm0 h2
+  have hf := (base_fields c dm0 h2).1
+  have hb : base.vdr_dm_data = some dm0 := by rw [h3]; exact baseOf_dm c dm0
+  refine ⟨base, dm0, h1, h2, h3, hu, ?_⟩
+  intro k hk i hi
+  obtain ⟨r, hr1, hr2⟩ := gen_frame_at c l base h4 k hk i hi
+  obtain ⟨d, e1, e2, e3, _, e5⟩ := frameRpu_spec c base c.shots[k] i r dm0 hb hf hu hr2
+  exact ⟨r, d, hr1, e1, e2, e3, e5⟩
+
+/-! ## (c) length, markers, errors, no panic -/
+
+/-- **C10 (c), count**: a successful generation returns exactly `length` RPUs, and `length` is the sum of
+the shot durations (otherwise it is an error) -/
+theorem gen_errors_or_length (c : Config) (l : List Rpu) (h : generateList c = .ok l) :
+    l.length = c.length ∧ c.length = (c.shots.map (·.duration)).foldl (· + ·) 0 := by
+  obtain ⟨_, _, h2, _⟩ := (generateList_ok c l).1 h
+  exact ⟨gen_length c l h, h2⟩
+
+/-- `generate_rpu_list` never panics (in particular `replace_metadata_block(s)` never does, whatever the
+block levels / lengths are) -/
+theorem gen_no_panic (c : Config) : generateList c ≠ .panic := generateList_ne_panic c
+
+/-- **exactly when generation succeeds**: `length` is the sum of the durations, and every block that is
+actually applied — the default blocks other than L5/L6, and for every shot of positive duration its blocks
+and the blocks of the applicable frame edit of every offset below the duration — is not Reserved (level 0)
+and is not an L8/L10 block in a CM v2.9 config. In every other case the result is `.error` (never a panic).
+Blocks of shots of duration 0 and of frame edits that never apply are not looked at. -/
+theorem gen_ok_iff (c : Config) :
+    (∃ l, generateList c = .ok l) ↔
+      c.length = (c.shots.map (·.duration)).foldl (· + ·) 0 ∧
+      (∀ b ∈ defaultBlocks c, accepts c b) ∧
+      ∀ s ∈ c.shots, ∀ i, i < s.duration → ∀ b ∈ s.blocks ++ editBlocks s i, accepts c b :=
+  generateList_ok_iff c
+
+theorem gen_error_iff (c : Config) :
+    generateList c = .error ↔
+      ¬ (c.length = (c.shots.map (·.duration)).foldl (· + ·) 0 ∧
+        (∀ b ∈ defaultBlocks c, accepts c b) ∧
+        ∀ s ∈ c.shots, ∀ i, i < s.duration → ∀ b ∈ s.blocks ++ editBlocks s i, accepts c b) := by
+  rw [← gen_ok_iff]
+  cases h : generateList c with
+  | ok l => simp
+  | error => simp
+  | panic => exact absurd h (gen_no_panic c)
+
+theorem shell_fields {d d0 : DmData} {f : Nat} (hs : shell d = { shell d0 with scene_refresh_flag := f }) :
+    d.main = d0.main ∧ d.compressed = d0.compressed ∧ d.affected_dm_metadata_id = d0.affected_dm_metadata_id ∧
+    d.current_dm_metadata_id = d0.current_dm_metadata_id ∧ d.scene_refresh_flag = f ∧
+    d.cmv29.isSome = d0.cmv29.isSome ∧ d.cmv40.isSome = d0.cmv40.isSome := by
+  have e1 := congrArg DmData.main hs
+  have e2 := congrArg DmData.compressed hs
+  have e3 := congrArg DmData.affected_dm_metadata_id hs
+  have e4 := congrArg DmData.current_dm_metadata_id hs
+  have e5 := congrArg DmData.scene_refresh_flag hs
+  refine ⟨e1, e2, e3, e4, e5, ?_, ?_⟩
+  · have := congrArg (fun d => d.cmv29.isSome) hs
+    simpa [shell] using this
+  · have := congrArg (fun d => d.cmv40.isSome) hs
+    simpa [shell] using this
+
+/-- **C10 (c), markers**: every generated RPU has the requested profile's markers (dovi_profile, header,
+mapping), DM data with the CM v2.9 container, the CM v4.0 container exactly when `cmv40` (then with exactly
+one L254 block), no duplicate keys, the profile's `main` values except source min/max PQ (entries 29/30),
+which are the config's values when given -/
+theorem gen_markers (c : Config) (l : List Rpu) (h : generateList c = .ok l) : ∀ r ∈ l,
+    r.dovi_profile = (match c.profile with | .p5 => 5 | _ => 8) ∧
+    r.header = (match c.profile with
+                | .p5 => { p8DefaultHeader with vdr_rpu_profile := 0, bl_video_full_range_flag := true }
+                | _ => p8DefaultHeader) ∧
+    r.rpu_data_mapping = some (match c.profile with | .p84 => profile84Mapping | _ => p81Mapping) ∧
+    r.el_type = none ∧ r.remaining = none ∧ r.modified = true ∧
+    ∃ d, r.vdr_dm_data = some d ∧ Uniq d ∧
+      d.compressed = false ∧ d.affected_dm_metadata_id = 0 ∧ d.current_dm_metadata_id = 0 ∧
+      d.cmv29.isSome = true ∧ d.cmv40.isSome = c.cmv40 ∧
+      d.main.length = 32 ∧ (∀ j, j ≠ 29 → j ≠ 30 → d.main[j]? = (dmMainOf c.profile)[j]?) ∧
+      (∀ v, c.sourceMinPq = some v → d.main[29]? = some (v : Int)) ∧
+      (∀ v, c.sourceMaxPq = some v → d.main[30]? = some (v : Int)) ∧
+      (c.cmv40 = true → ∃ x, d.levelBlocks 254 = [x]) := by
+  intro r hr
+  obtain ⟨base, dm0, h1, h2, h3, h4⟩ := gen_frames c l h
+  obtain ⟨hu, _, _, m1, m2, m3, m4, _⟩ := dmFromConfig_spec c dm0 h2
+  obtain ⟨f1, f2, f3, f4, f5, f6⟩ := base_fields c dm0 h2
+  have hb : base.vdr_dm_data = some dm0 := by rw [h3]; exact baseOf_dm c dm0
+  obtain ⟨s, _, i, _, hri⟩ := gen_frame_of_mem c l base h4 r hr
+  obtain ⟨d, e1, e2, e3, _, _⟩ := frameRpu_spec c base s i r dm0 hb f1 hu hri
+  obtain ⟨g1, g2, g3, g4, _, g6, g7⟩ := shell_fields e3
+  subst e1
+  refine ⟨?_, ?_, ?_, ?_, ?_, ?_, d, rfl, e2, g2.trans f2, g3.trans f3, g4.trans f4, g6.trans f5, g7.trans f6,
+    by rw [g1]; exact m1, by rw [g1]; exact m2, by rw [g1]; exact m3, by rw [g1]; exact m4, ?_⟩
+  · rw [h3]; unfold baseOf; cases c.profile <;> rfl
+  · rw [h3]; unfold baseOf; cases c.profile <;> rfl
+  · rw [h3]; unfold baseOf; cases c.profile <;> rfl
+  · rw [h3]; unfold baseOf; cases c.profile <;> rfl
+  · rw [h3]; unfold baseOf; cases c.profile <;> rfl
+  · rw [h3]; unfold baseOf; cases c.profile <;> rfl
+  · intro hc
+    obtain ⟨x0, hx0⟩ := dmFromConfig_present c dm0 h2 hc
+    have hl0 : x0.level = 254 := by
+      obtain ⟨_, _, _, _, _, hl⟩ := (mem_levelBlocks dm0 x0 254).1 hx0; exact hl
+    obtain ⟨d', x, hd', hx, _⟩ := frameRpu_present c base s i _ dm0 hb f1 hu hri x0 (by rw [hl0]; exact hx0)
+    simp only [Option.some.injEq] at hd'
+    subst hd'
+    rw [hl0] at hx
+    have hlen := levelBlocks_length_le_one e2 254 (by decide)
+    cases hl : d.levelBlocks 254 with
+    | nil => rw [hl] at hx; cases hx
+    | cons a t =>
+      cases t with
+      | nil => exact ⟨a, rfl⟩
+      | cons b t => rw [hl] at hlen; simp at hlen
+
+/-- blocks of a CM v4.0 level never appear in a CM v2.9 config's output, blocks of unknown levels never appear -/
+theorem gen_absent (c : Config) (l : List Rpu) (h : generateList c = .ok l) (r : Rpu) (hr : r ∈ l)
+    (d : DmData) (hd : r.vdr_dm_data = some d) (x : Block) (hx : x ∈ d.levelBlocks x.level) :
+    x.level ∈ cmv29Levels ∨ (c.cmv40 = true ∧ x.level ∈ cmv40Levels) := by
+  obtain ⟨base, dm0, h1, h2, h3, h4⟩ := gen_frames c l h
+  obtain ⟨hu, hh, _⟩ := dmFromConfig_spec c dm0 h2
+  have f1 := (base_fields c dm0 h2).1
+  have hb : base.vdr_dm_data = some dm0 := by rw [h3]; exact baseOf_dm c dm0
+  obtain ⟨s, _, i, _, hri⟩ := gen_frame_of_mem c l base h4 r hr
+  obtain ⟨d', e1, _, _, e4, _⟩ := frameRpu_spec c base s i r dm0 hb f1 hu hri
+  subst e1
+  simp only [Option.some.injEq] at hd
+  subst hd
+  exact (hh _).1 ((e4 _).1 (holds_of_mem hx))
+
+
+/-! ## non-vacuity: a concrete config satisfying the hypotheses, and what the theorems say about it -/
+
+def l2 (t a : Int) : Block := { level := 2, length := 11, vals := [t, a, 2048, 2048, 2048, 2048, 0] }
+
+/-- two shots (2 + 1 frames); an L2 default for target 2081 overridden by the first shot and again by a frame
+edit at offset 1; a second edit with the same offset and an edit beyond the shot (both never applied); an L5
+default (ignored); an L1 shot block; explicit source PQ and L6 -/
+def exCfg : Config :=
+  { length := 3, sourceMinPq := some 7, sourceMaxPq := some 3079, level6 := some [1000, 1, 400, 100],
+    defaults := [l2 2081 1, l2 2851 1, { level := 5, length := 7, vals := [9, 9, 9, 9] }],
+    shots := [{ duration := 2, blocks := [l2 2081 2, { level := 1, length := 5, vals := [0, 3000, 1500] }],
+                edits := [{ offset := 1, blocks := [l2 2081 3] }, { offset := 1, blocks := [l2 2081 4] },
+                          { offset := 5, blocks := [l2 2081 5] }] },
+              { duration := 1 }] }
+
+/-- the hypothesis `generateList c = .ok l` of all theorems above is satisfiable -/
+example : ∃ l, generateList exCfg = .ok l := ⟨_, rfl⟩
+/-- … and so is `dmFromConfig c = .ok dm0` (`gen_base_blocks`) -/
+example : ∃ d, dmFromConfig exCfg = .ok d := ⟨_, rfl⟩
+/-- … and `Uniq d`, `d.replaceBlock b = .ok d'` / `d.replaceBlocks bs = .ok d'` (`replaceBlock(s)_override`) -/
+example : ∃ d d', dmFromConfig exCfg = .ok d ∧ Uniq d ∧ d.replaceBlocks [l2 2081 2, l2 2081 7] = .ok d' := by
+  obtain ⟨d, hd⟩ : ∃ d, dmFromConfig exCfg = .ok d := ⟨_, rfl⟩
+  have hu := (gen_base_blocks exCfg d hd).1
+  have ha : ∀ b ∈ [l2 2081 2, l2 2081 7], okFor d b := by
+    intro b hb
+    refine ⟨?_, fun _ => ((gen_base_blocks exCfg d hd).2.1 _).2 (.inl ?_)⟩ <;>
+      · simp only [List.mem_cons, List.not_mem_nil, or_false] at hb
+        rcases hb with rfl | rfl <;> decide
+  obtain ⟨d', hd'⟩ := (replaceBlocks_ok_iff _ d hu).2 ha
+  exact ⟨d, d', hd, hu, hd'⟩
+
+/-- per frame: scene-refresh flag and the blocks of one level -/
+def view (c : Config) (lv : Nat) : Option (List (Option Nat × List Block)) :=
+  match generateList c with
+  | .ok l => some (l.map fun r => (flagOf r, (r.vdr_dm_data.map (·.levelBlocks lv)).getD []))
+  | _ => none
+
+/-- cuts on the first frame of each shot; target 2081: shot block, then the FIRST edit at offset 1, then (second
+shot) the default; target 2851: the default everywhere -/
+example : view exCfg 2 = some [(some 1, [l2 2081 2, l2 2851 1]), (some 0, [l2 2081 3, l2 2851 1]),
+    (some 1, [l2 2081 1, l2 2851 1])] := by decide
+/-- an L5 block in `default_metadata_blocks` is ignored: L5 is `level5` (here the zero offsets) -/
+example : view exCfg 5 = some [(some 1, [{ level := 5, length := 7, vals := [0, 0, 0, 0] }]),
+    (some 0, [{ level := 5, length := 7, vals := [0, 0, 0, 0] }]),
+    (some 1, [{ level := 5, length := 7, vals := [0, 0, 0, 0] }])] := by decide
+
+/-! ## findings (concrete) -/
+
+def v29Cfg (bs : List Block) : Config := { cmv40 := false, length := 1, shots := [{ duration := 1, blocks := bs }] }
+
+/-- FINDING: in a CM v2.9 config, L3 / L9 / L11 / L254 blocks (and blocks of a level that has no container, e.g. 7)
+are silently dropped — generation succeeds and the output is the same as without them. (General form:
+`replaceBlock_dropped`, `gen_absent`.) -/
+example : generateList (v29Cfg [{ level := 9, length := 1, vals := [1, 0, 0, 0, 0, 0, 0, 0, 0] },
+      { level := 11, length := 4, vals := [2, 0, 1, 0, 0] }, { level := 3, length := 5, vals := [1, 2, 3] },
+      { level := 254, length := 2, vals := [0, 2] }, { level := 7, length := 0, vals := [] }])
+    = generateList (v29Cfg []) := by decide
+/-- … whereas an L8 (or L10) block in a CM v2.9 config is an error -/
+example : generateList (v29Cfg [{ level := 8, length := 10, vals := [1] }]) = .error := by decide
+def neverCfg : Config :=
+  { length := 1,
+    shots := [{ duration := 0, blocks := [{ level := 0, length := 0, vals := [] }] },
+              { duration := 1, edits := [{ offset := 1, blocks := [{ level := 0, length := 0, vals := [] }] }] }] }
+
+/-- FINDING: blocks that are never applied are never checked: a Reserved (level 0) block in a shot of duration 0
+or in a frame edit beyond the shot does not make generation fail -/
+example : ∃ l, generateList neverCfg = .ok l := ⟨_, rfl⟩
+def v40Cfg (bs : List Block) : Config := { length := 1, shots := [{ duration := 1, blocks := bs }] }
+
+/-- the property text's "an unsupported L8 length currently panics": not in this model — `generate_rpu_list`
+never panics (`gen_no_panic`) and the writer rejects the length with an error (`validate_length` runs first) -/
+example : generate (v40Cfg [{ level := 8, length := 11, vals := [1] }]) none none = .error := by decide
 end Dovi.C10
